@@ -28,6 +28,90 @@ def run_mc(work, tag, text, workers, timeout=3000):
     return r
 
 
+import re
+_LR_STEP = re.compile(r"^\\\* <(\w+)\((\d+)\) line")
+_LR_VAL = re.compile(r"^/\\ val = (\d+)\s*$")
+_LR_OUT = re.compile(r"^/\\ outcome = \((.*)\)\s*$")
+
+
+def scripts_from_lr_sim(simdir, getters, refreshers, writers, kinds, preload):
+    """TLC -simulate behaviours of LoadRace.tla -> scenarios with a kit script (binding B2).  A label is executed by releasing the
+    goroutine from the gate it is parked at BEFORE that step (see the header of LoadRace.tla)."""
+    out = []
+    gname = {p: "g%d" % (i + 1) for i, p in enumerate(getters)}
+    rname = {p: "r%d" % (i + 1) for i, p in enumerate(refreshers)}
+    wname = {p: "w%d" % (i + 1) for i, p in enumerate(writers)}
+    for fn in sorted(os.listdir(simdir)):
+        steps, order, outc, nx, actor, passed = [], [], {}, 0, {}, set()
+        val = 50 if preload else 0       # value of the key in the state BEFORE the step being read
+        last = None
+        with open(os.path.join(simdir, fn)) as f:
+            for line in f:
+                m = _LR_STEP.match(line)
+                if m:
+                    last = (m.group(1), int(m.group(2)))
+                    lab, p = last
+                    if lab == "lookup":
+                        if p in gname:
+                            actor[p] = gname[p]
+                            steps.append({"g": gname[p], "at": "start"})
+                        else:
+                            actor[p] = "x" + rname[p]       # the reload runs on a goroutine of the executor, named after its caller
+                            steps.append({"g": rname[p], "at": "start"})
+                    elif lab == "start" and p in gname:
+                        passed.add(p)
+                        steps.append({"g": gname[p], "at": "get.afterLookup"})
+                    elif lab == "start":
+                        steps.append({"g": actor[p], "at": "start"})          # the executor goroutine registers the reload
+                    elif lab == "finish" and p in gname and p not in passed:
+                        passed.add(p)
+                        steps.append({"g": gname[p], "at": "get.afterLookup"})   # the hit path returns from here
+                    elif lab == "ldEnter":
+                        order.append(p)
+                        steps.append({"g": actor[p], "at": "ld.enter"})
+                    elif lab == "ldExit":
+                        steps.append({"g": actor[p], "at": "ld.exit"})
+                    elif lab == "install":
+                        steps.append({"g": actor[p], "at": "ld.beforeInstall"})
+                    elif lab == "release":
+                        steps.append({"g": actor[p], "at": "ld.afterInstall"})
+                    elif lab == "w_cancel":
+                        steps.append({"g": wname[p], "at": "start"})
+                    elif lab == "w_store":
+                        if val != 0:
+                            steps.append({"g": wname[p], "at": "h.atomic"})  # the atomic deletion handler: a value is removed / replaced
+                        steps.append({"g": wname[p], "at": "set.afterCompute" if kinds[p] == "set" else "inv.afterCompute"})
+                    continue
+                mv = _LR_VAL.match(line)
+                if mv:
+                    val = int(mv.group(1))
+                    continue
+                m = _LR_OUT.match(line)
+                if m and last and last[0] == "ldExit":
+                    for pid, o in re.findall(r'(\d+) :> "(\w+)"', m.group(1)):
+                        if int(pid) == last[1]:
+                            outc[int(pid)] = o
+        if not steps:
+            continue
+        out.append({"getters": len(getters), "bulk": 0, "refreshers": len(refreshers), "writers": [kinds[w] for w in writers],
+                    # (a panicking reload on an executor goroutine takes the goroutine down by design: replayed as an error)
+                    "preload": 1 if preload else 0, "outcomes": ["val"],
+                    "outseq": [("err" if (p in rname and outc.get(p) == "panic") else outc.get(p, "val")) for p in order], "policy": "script",
+                    "seed": 0, "script": steps, "refresh": 1 if (refreshers or preload) else 0, "bulkkeys": 2, "hgate": 1, "bulkref": 0, "inloader": []})
+    return out
+
+
+def lr_sim(work, tag, text, num, seed):
+    path = os.path.join(work, "lrsim_%s.cfg" % tag)
+    with open(path, "w") as f:
+        f.write(text)
+    simdir = os.path.join(work, "lrsim_" + tag)
+    os.makedirs(simdir, exist_ok=True)
+    r = vlib.run_tlc(work, "LoadRaceMC", path, workers=1, timeout=600, heap="2g",
+                     simulate="file=%s/t,num=%d" % (simdir, num), extra=["-depth", "200", "-seed", str(seed)])
+    return simdir, r
+
+
 def scenarios_c11(quick, seed):
     """asynchronous-executor half of C11: refreshes / stale reads of a preloaded entry, mostly without writers"""
     n = 120 if quick else 6000
@@ -79,9 +163,9 @@ def scenarios(prop, quick, seed):
             # invalidation of the key is between clearing the in-flight record and publishing the removal; the user's
             # atomic deletion handler runs exactly there and is the gate
             sc.update(getters=0, bulk=0, refreshers=1, refresh=1, preload=1, outcomes=["val"], writers=["invalidate"], policy="script", hgate=1,
-                      script=[{"g": "w1", "at": "start"}, {"g": "w1", "at": "cp.lock"}, {"g": "r1", "at": "start"},
-                              {"g": "x1", "at": "ld.enter"}, {"g": "x1", "at": "ld.exit"}, {"g": "x1", "at": "ld.beforeInstall"},
-                              {"g": "x1", "at": "cp.lock"}, {"g": "w1", "at": "h.atomic"}])
+                      script=[{"g": "w1", "at": "start"}, {"g": "r1", "at": "start"}, {"g": "xr1", "at": "start"},
+                              {"g": "xr1", "at": "ld.enter"}, {"g": "xr1", "at": "ld.exit"}, {"g": "xr1", "at": "ld.beforeInstall"},
+                              {"g": "w1", "at": "h.atomic"}])
         elif sc["writers"]:
             # half of the racing scenarios are biased towards the two windows the properties name
             sc["policy"] += ["", "+inflight", "+atinstall", "+inflight"][(j // 8) % 4]
@@ -119,6 +203,20 @@ def run(prop, tier, replay=None, collect_only=False):
             neg_futs = [(ex.submit(run_mc, work, tag, txt, 2), inv) for tag, txt, inv in neg]
             mc_futs = [ex.submit(run_mc, work, tag, txt, 6 if quick else 8) for tag, txt in inst]
             scen = scenarios(prop, quick, seed)
+            if prop in ("C08", "C09"):
+                # B2: behaviours of LoadRace.tla (the model of the current code) replayed as schedules on the real cache
+                nsim = 40 if quick else 400
+                kinds2 = {11: "set", 12: "invalidate"}
+                for i, (tag, g, rf, pre) in enumerate([("g2r1", [1, 2], [3], False), ("g1r1p", [1], [3], True), ("g2", [1, 2], [], False)]):
+                    txt = lr_cfg(g, rf, [11, 12], "WK_two", False, preload=pre).replace("INVARIANTS NoOverlap CleanTable Returned JoinersShare NoStaleInstall NoDrop LockFree", "INVARIANTS NoOverlap")
+                    simdir, r = lr_sim(work, tag, txt, nsim, seed * 7919 + i)
+                    if r["rc"] != 0 and "Finished in" not in r["out"]:
+                        broken.append("TLC simulation of LoadRace %s failed: %s" % (tag, r["out"][-800:]))
+                        continue
+                    ss = scripts_from_lr_sim(simdir, g, rf, [11, 12], kinds2, pre)
+                    for j, sc in enumerate(ss):
+                        sc["seed"] = seed * 1000 + 700 + j
+                    scen += ss
         nshard = min(vlib.NCPU, max(1, len(scen) // 10))
         shards = [scen[i::nshard] for i in range(nshard)]
 
@@ -147,6 +245,12 @@ def run(prop, tier, replay=None, collect_only=False):
             if recs and len(cov["samples"]) < 2:
                 cov["samples"].append({"scenario": {k: v for k, v in recs[0]["sc"].items() if k != "script"},
                                        "events": sorted(recs[0]["events"], key=lambda e: e["seq"])[:30], "final": recs[0]["final"]})
+            sch = cov.setdefault("schedules", {"from_tlc_behaviours": 0, "script_steps": 0, "script_steps_not_followed": 0})
+            for r in recs:
+                if r["sc"]["policy"] == "script" and r["sc"].get("outseq") is not None and r["scriptn"] > 8:
+                    sch["from_tlc_behaviours"] += 1
+                    sch["script_steps"] += r["scriptn"]
+                    sch["script_steps_not_followed"] += r["drift"]
             seen = set()
             for x in d["devs"]:
                 cov["predicates_failed"][x["pred"]] = cov["predicates_failed"].get(x["pred"], 0) + 1
